@@ -59,4 +59,15 @@ Proof. reflexivity. Qed.
 Lemma wrap_u32_mod : forall x, wrap_u 32 x = x mod 4294967296.
 Proof. reflexivity. Qed.
 
+(* reinterpreting a uint32 bit pattern as int32 (Go: int32(x) for x uint32) *)
+Lemma wrap_s32_of_u32 : forall x, 0 <= x < 4294967296 ->
+  wrap_s 32 x = if x <? 2147483648 then x else x - 4294967296.
+Proof.
+  intros x H. unfold wrap_s. change (2 ^ (32 - 1)) with 2147483648. change (2 ^ 32) with 4294967296.
+  destruct (Z.ltb_spec x 2147483648).
+  - rewrite Z.mod_small by lia. lia.
+  - replace (x + 2147483648) with ((x - 2147483648) + 1 * 4294967296) by lia.
+    rewrite Z.mod_add by lia. rewrite Z.mod_small by lia. lia.
+Qed.
+
 Global Opaque wrap_s wrap_u.
